@@ -404,6 +404,65 @@ def r3_mask_insertion(ctx, rule):
                             'capitalisation transition (its words are only ever guessed lower-case and the pre-terminal '
                             'probability lacks the mask factor the scorer multiplies in)', {'loop': U(n.iter)}, n)
                     return
+    if not cands:
+        # "build a new list" form:  NEW = []; for t in base['replacements']: NEW.append(t); if t[0] == 'A': NEW.append('C' + t[1:])
+        # followed by base['replacements'] = NEW  (or [:] = NEW)
+        mod = ctx.repo.modules[qual.partition('::')[0]]
+        for lp in [n for n in walk_local(fn) if isinstance(n, ast.For) and isinstance(n.target, ast.Name)]:
+            if not U(lp.iter).endswith("['replacements']"):
+                continue
+            t = lp.target.id
+            apps = [c for c in calls_in(lp) if isinstance(c.func, ast.Attribute) and c.func.attr == 'append' and isinstance(c.func.value, ast.Name)]
+            if len(apps) != 2 or len({c.func.value.id for c in apps}) != 1:
+                continue
+            new = apps[0].func.value.id
+            stores = stores_in(fn)
+            local = {}
+            for s_ in walk_stmts(lp.body):
+                if isinstance(s_, ast.Assign) and isinstance(s_.targets[0], ast.Name):
+                    local[s_.targets[0].id] = s_.value
+            facts = {'loop': U(lp.iter), 'appends': [U(c) for c in apps]}
+            copy_app = [c for c in apps if U(c.args[0]) == t]
+            mask_app = [c for c in apps if c not in copy_app]
+            ok = True
+            if len(copy_app) != 1 or len(mask_app) != 1:
+                ctx.bad(rule, qual, 'new replacement list built from %s' % facts['appends'], 'every transition is copied and a C<n> '
+                        'follows each A<n>', facts, lp)
+                return
+            c_conds = [(U(tt), p) for tt, p in path_conditions(mod, c08._stmt_of(mod, copy_app[0]), stop=lp)]
+            m_conds = [(U(tt), p) for tt, p in path_conditions(mod, c08._stmt_of(mod, mask_app[0]), stop=lp)]
+            val_t = U(mask_app[0].args[0])
+            for k, v in local.items():
+                val_t = val_t.replace(k, U(v))
+            facts.update({'copied_under': c_conds, 'mask_under': m_conds, 'inserted': val_t})
+            if c_conds or copy_app[0].lineno > mask_app[0].lineno:
+                ok = False
+                ctx.bad(rule, qual, 'transition copied under %s' % c_conds, 'every transition of the file is kept, before its mask', facts, lp)
+            if m_conds != [("%s[0] == 'A'" % t, True)]:
+                ok = False
+                ctx.bad(rule, qual, 'insertion guard %s' % m_conds, "a mask is inserted after every 'A' transition and only there", facts, lp)
+            if val_t != "'C' + %s[1:]" % t:
+                ok = False
+                ctx.bad(rule, qual, 'inserted value ' + val_t, "for A<n> the transition C<n> with the same n (ALL digits of n) must be "
+                        "inserted", facts, mask_app[0])
+            if any(isinstance(s_, (ast.Break, ast.Continue, ast.Return)) for s_ in walk_stmts(lp.body)):
+                ok = False
+                ctx.bad(rule, qual, 'loop leaves early', 'every transition must be visited', facts, lp)
+            # the new list becomes the structure's replacement list, and starts empty for every structure
+            wb = [s_ for s_ in walk_stmts(fn.body) if isinstance(s_, ast.Assign) and U(s_.value) == new
+                  and U(s_.targets[0]) in (U(lp.iter), U(lp.iter) + '[:]')]
+            init = [s_ for s_, v in stores.get(new, []) if v is not None and isinstance(v, ast.List) and not v.elts]
+            outer = mod.parents.get(id(lp))
+            same_block = any(isinstance(getattr(outer, f_, None), list) and any(x is lp for x in getattr(outer, f_)) and
+                             any(x is i_ for i_ in init for x in getattr(outer, f_)) and any(x is w_ for w_ in wb for x in getattr(outer, f_))
+                             for f_ in ('body', 'orelse'))
+            if not wb or not init or not same_block:
+                ok = False
+                ctx.bad(rule, qual, 'new list %s is not (re)started empty and written back for every structure' % new,
+                        'the expanded list must replace the replacements of the same base structure', facts, lp)
+            if ok:
+                ctx.ok(rule, qual, "new list: every transition copied, C<n> appended after every A<n>, written back", facts)
+            return
     if len(cands) != 1 or len(cands[0][1]) != 1:
         ctx.unk(rule, qual, 'mask insertion loop not found')
         return
